@@ -15,6 +15,23 @@
 #include <zck.h>
 #include "zck_private.h"
 
+/* State an application that uses the same libraries legitimately leaves behind: an (already handled) error on OpenSSL's
+ * per-thread error queue - from a failed BIO_new_file() of its own - and a non-zero errno.  Enabled by ZCKV_APP_NOISE=1. */
+#include <dlfcn.h>
+#include <errno.h>
+static int app_noise_on = -1;
+static long app_noise_made = 0;
+static void app_noise(void) {
+    if(app_noise_on < 0) app_noise_on = getenv("ZCKV_APP_NOISE") != NULL;
+    if(!app_noise_on) return;
+    void *(*bio_new_file)(const char *, const char *) = (void *(*)(const char *, const char *))dlsym(RTLD_DEFAULT, "BIO_new_file");
+    if(bio_new_file) {
+        void *b = bio_new_file("/nonexistent-zckv/no-such-file", "r");
+        if(!b) app_noise_made++;
+    }
+    errno = EINTR;
+}
+
 int main(int argc, char **argv) {
     if(argc < 4) return 3;
     FILE *mf = fopen(argv[1], "rb");
@@ -30,6 +47,7 @@ int main(int argc, char **argv) {
     zckCtx *z = zck_create();
     int type; long off, len; char mode; unsigned long param;
     while(fscanf(cf, "%d %ld %ld %c %lu", &type, &off, &len, &mode, &param) == 5) {
+        app_noise();
         if(mode == 'H') {
             /* one single update call over a contiguous buffer of <len> bytes (the message file repeated cyclically) */
             zckHashType t = {0};
@@ -118,6 +136,7 @@ int main(int argc, char **argv) {
         hash_close(&h);
         free(m);
     }
+    fprintf(of, "NOISE %ld\n", app_noise_made);
     fprintf(of, "END\n");
     fclose(of);
     zck_free(&z);
